@@ -62,6 +62,13 @@ theorem kind_irrelevant (sync dSend dSync : Bool) :
   have : SourceFacts.nodeMarkersConstrainS = false := by decide
   simp [kindFreeOk, this]
 
+/-- **traversals**: an iterator over a tree may be handed to another thread exactly when the tree's data is thread-safe --
+    the documented use is accepted, data that is neither sendable nor shareable is rejected -/
+theorem iter_sound (F : MarkerFacts) (hF : F = ⟨true, true, true, true, true, true⟩) (dSend dSync : Bool) :
+    iterOk F dSend dSync = true ↔ (dSend = true ∧ dSync = true) := by
+  subst hF
+  cases dSend <;> cases dSync <;> simp [iterOk, handleOk]
+
 /-- without the bounds the decision is unsound: a tree over non-thread-safe data is accepted -/
 theorem unbounded_is_unsound : accepted ⟨false, false, false, false, false, false⟩ false false false false false = true := by
   decide
